@@ -220,7 +220,8 @@ func C03(c *core.Ctx) {
 			c.Count("target", tgtKind)
 			desc := fmt.Sprintf("%s %s at %q src=%s tgt=%s", strategy, loc.kind, loc.path, srcKind, tgtKind)
 			input := map[string]interface{}{"yang": dc.yang, "strategy": strategy, "entry": loc.path, "source_impl": srcKind, "target_impl": tgtKind,
-				"source": gen.Canon(loc.kids, src, false), "target_before": gen.Canon(loc.kids, before, false)}
+				"source": gen.Canon(loc.kids, src, false), "target_before": gen.Canon(loc.kids, before, false),
+				"source_json": jsonOf(loc.kids, src), "target_root_json": jsonOf(dc.kids, tgt)}
 			if ferr != nil || sel == nil {
 				c.Count("find_failed", fmt.Sprint(tgtKind, " ", ferr))
 				if tgtKind == "refstore" {
@@ -323,6 +324,11 @@ func C03(c *core.Ctx) {
 	}
 }
 
+func jsonOf(kids []*gen.SNode, body []*gen.DNode) string {
+	b, _ := json.Marshal(gen.ToMap(kids, body))
+	return string(b)
+}
+
 func short(s string) string {
 	if len(s) > 160 {
 		return s[:160] + "…"
@@ -406,16 +412,10 @@ func locateBody(kids []*gen.SNode, body []*gen.DNode, loc editLoc) []*gen.DNode 
 
 // c03known maps a failing case to a known-finding id ("" = none applies).
 func c03known(desc string, input map[string]interface{}, implStatus string) string {
-	src, _ := input["source_impl"].(string)
 	tgt, _ := input["target_impl"].(string)
-	errText, _ := input["error"].(string)
 	yang, _ := input["yang"].(string)
 	mapTarget := tgt == "reflect-map" || tgt == "node-map"
 	switch {
-	case tgt == "node-map" && strings.Contains(errText, "SetMapIndex: value of type string is not assignable to type int"):
-		return "node-map-setmapindex"
-	case src == "node-map" && strings.Contains(errText, "cannot coerse 'string' to int32"):
-		return "node-map-source-coerce"
 	case mapTarget && compoundKeyRe.MatchString(yang):
 		return "map-list-compound-key"
 	}
